@@ -40,8 +40,6 @@ Accessors == {"RouteInfo", "ContentType", "ResponseFormat", "ResponseFormatText"
 OffersOf(a) == IF a = "ResponseFormatText" THEN {"text"} ELSE {"json", "text"}
 Negotiated(in, offers) == IF in.accept \in offers THEN <<MediaOf(in.accept)>> ELSE << >>
 
-AuthOK(in) == Secured(in.op) /\ in.cs # NoneStr /\ Admits(in.op, in.cs) /\ in.cu # "bad"
-AuthCallsOf(in) == IF AuthOK(in) THEN AdmittingAlt(in.op, in.cs) ELSE Len(Alts(in.op))
 
 InitMemo == [route |-> FALSE, ct |-> << >>, fmt |-> << >>, pr |-> << >>, sc |-> << >>, bound |-> << >>,
              lookups |-> 0, authcalls |-> 0, consumes |-> 0]
